@@ -519,6 +519,16 @@ func checkC09(c *Check) {
 	checkFreshDecode(c, "7/result-is-fresh")
 	importObs(c, "C17", "C17.5/env-mutex", "8/one-call-at-a-time", nil)
 	c.Expect("8/one-call-at-a-time", 10)
+	// the ends that are reported are the program's: the tracer's requests reach the kernel from the thread that is
+	// the tracer (else every request fails with the tolerated ESRCH and the stop is never resumed), and the program
+	// cannot end the container init by a signal (the host would report a lost connection instead of the verdict)
+	importObs(c, "C17", "C17.3/thread-affinity", "9/tracer-thread", nil)
+	c.Expect("9/tracer-thread", 3)
+	checkIgnoredSignals(c, "10/init-survives-signals", nil, goExitSignals)
+	// "Disallowed Syscall" is reported for the calls the handler refused and for no others: the per-path verdicts
+	// of one call are joined by severity (C03.8)
+	importObs(c, "C03", "C03.8/combine-join", "11/verdict-join", nil)
+	c.Expect("11/verdict-join", 2)
 }
 
 func isErrorType(t types.Type) bool {
